@@ -59,7 +59,7 @@ ASSUMPTIONS = [
 PROBES = ["mixed_cell_shapes_2d", "two_subdomains_same_dim_different_mix", "polyhedral_3d", "interface_data", "vector_data", "ge_11_exports", "non_integer_times",
           "times_closer_than_1e-6", "crash_in_times_json", "crash_in_vtu", "crash_in_step_pvd", "crash_in_collecting_pvd", "crash_between_exports", "torn_file",
           "restart_route_pvd", "restart_route_mdg_pvd", "restart_route_vtu", "second_restart", "third_restart", "restart_raised_after_midexport_crash",
-          "continue_after_restart", "crash_during_restart_before_any_output", "data_tuples_not_in_mdg_order", "readonly_import_of_older_step", "zero_d_subdomain", "export_after_vtu_route_restart_raises"]
+          "continue_after_restart", "crash_during_restart_before_any_output", "data_tuples_not_in_mdg_order", "constants_exported_separately", "readonly_import_of_older_step", "zero_d_subdomain", "export_after_vtu_route_restart_raises"]
 
 KEYS_SD = ["p"]
 
@@ -72,7 +72,7 @@ class EndOfRun(Exception):
 class Host(pp.DataSavingMixin):
     """Minimal host for the real DataSavingMixin protocol (no physics)."""
 
-    def __init__(self, mdg, tm, folder: Path, restart_options, keys_sd, key_intf):
+    def __init__(self, mdg, tm, folder: Path, restart_options, keys_sd, key_intf, constants_separately=False):
         self.mdg = mdg
         self.time_manager = tm
         self.params = {"folder_name": str(folder), "file_name": "data"}
@@ -80,7 +80,7 @@ class Host(pp.DataSavingMixin):
         self.units = pp.Units()
         self._keys_sd = keys_sd
         self._key_intf = key_intf
-        self.exporter = pp.Exporter(mdg, "data", folder_name=folder)
+        self.exporter = pp.Exporter(mdg, "data", folder_name=folder, export_constants_separately=constants_separately)
 
     def data_to_export(self):
         out = []
@@ -261,6 +261,9 @@ def run_exporter(ch, tr: Trace) -> None:
         crash_midexport = ch.flag(1, 2)  # stratum: crashes inside exports (else only between complete exports)
         torn = ch.flag(1, 2)
         many = ch.flag(1, 6)
+        world["constants_separately"] = ch.flag(1, 3)  # exporter option: constant data in files of their own
+    if world["constants_separately"]:
+        tr.probe("constants_exported_separately")
     tr.emit("config", [(g.dim, d) for g, d in world["subs"]], len(world["intfs"]), world["keys_sd"], time_family, max_cycles, crash_midexport)
     with envseam.scratch() as root:
         folder = Path(root) / "viz"
@@ -286,7 +289,7 @@ def run_exporter(ch, tr: Trace) -> None:
         def new_session(restart_options):
             mdg = fresh_mdg(world)
             tm = pp.TimeManager([0, 1000], 1.0, constant_dt=True)
-            host = Host(mdg, tm, folder, restart_options, world["keys_sd"], world["key_intf"])
+            host = Host(mdg, tm, folder, restart_options, world["keys_sd"], world["key_intf"], world["constants_separately"])
             return {"mdg": mdg, "tm": tm, "host": host}
 
         def do_export(sess, advance: bool):
@@ -502,7 +505,7 @@ def run_exporter(ch, tr: Trace) -> None:
 
 WORKLOADS = [
     Workload(
-        name="exporter", run=run_exporter, runs={"quick": 600, "thorough": 30_000}, chunk=20, run_timeout=180.0,
+        name="exporter", leak_mb=2.3, override_cap=60, run=run_exporter, runs={"quick": 600, "thorough": 30_000}, chunk=20, run_timeout=180.0,
         real=["pp.Exporter (write_vtu, write_pvd, _export_mdg_pvd, per-cell-type grouping, import_from_pvd, import_state_from_vtu)", "meshio vtu writer/reader",
               "pp.TimeManager.write_time_information / load_time_information / set_time_and_dt_from_exported_steps",
               "pp.DataSavingMixin.write_pvd_and_vtu / load_data_from_pvd / load_data_from_vtu (hosted by a minimal object)", "real files on tmpfs"],
@@ -539,7 +542,10 @@ def run_model_level(ch, tr: Trace, families=("flow",)) -> None:
         sim.p_fail = ch.choice([0, 0, 1, 3])
         max_cycles = ch.rng(1, 3)
         torn = ch.flag()
-    tr.emit("config2", sim.tm_kw["schedule"], sim.p_fail, max_cycles, torn)
+        sim.extra_params = {"export_constants_separately": ch.flag(1, 3)}
+    if sim.extra_params["export_constants_separately"]:
+        tr.probe("constants_exported_separately")
+    tr.emit("config2", sim.tm_kw["schedule"], sim.p_fail, max_cycles, torn, sim.extra_params["export_constants_separately"])
     with envseam.scratch() as root:
         folder = Path(root) / "viz"
         seam = FsSeam(root, tr)
@@ -696,7 +702,7 @@ def run_model_level(ch, tr: Trace, families=("flow",)) -> None:
 
 WORKLOADS.append(
     Workload(
-        name="model", run=run_model_level, runs={"quick": 96, "thorough": 3_000}, chunk=6, run_timeout=400.0,
+        name="model", leak_mb=3.0, override_cap=24, run=run_model_level, runs={"quick": 96, "thorough": 3_000}, chunk=6, run_timeout=400.0,
         real=["the real SinglePhaseFlow model run: pp.run_time_dependent_model, NewtonSolver, SolutionStrategy.prepare_simulation/reset_state_from_file, DataSavingMixin.save_data_time_step/load_data_from_pvd/load_data_from_vtu, Exporter, TimeManager time I/O, restart through params['restart_options']"],
         stub=["open() interposer (crash at a drawn crossing, torn file)", "fault-injecting overrides of check_convergence/solve_linear_system (failed steps are exported too, as the code does)"],
     )
@@ -709,7 +715,7 @@ def run_model_level_mp(ch, tr: Trace) -> None:
 
 WORKLOADS.append(
     Workload(
-        name="model_mp", run=run_model_level_mp, runs={"quick": 32, "thorough": 1_200}, chunk=2, run_timeout=600.0,
+        name="model_mp", leak_mb=3.5, override_cap=10, run=run_model_level_mp, runs={"quick": 32, "thorough": 1_200}, chunk=2, run_timeout=600.0,
         real=["as workload model, physics = MassAndEnergyBalance / MomentumBalance with contact mechanics / Poromechanics: vector-valued displacement, interface displacement, contact traction, temperature and enthalpy-flux variables are exported, crashed, imported and compared"],
         stub=["open() interposer (crash at a drawn crossing, torn file)", "fault-injecting overrides of check_convergence/solve_linear_system"],
     )
